@@ -1,5 +1,6 @@
 SPECIFICATION Spec
 CONSTANTS
+  RejectIP = TRUE
   Family = "gen"
   MaxLen = 4
 
